@@ -23,7 +23,7 @@ import ast
 import os
 
 KEY = "translated_sinks"
-IMPORTS = ["Rbacx.Model.PyLib", "Rbacx.Model.PyAwait", "Rbacx.Model.PySinks"]
+IMPORTS = ["Rbacx.Model.PyLib", "Rbacx.Model.PyAwait", "Rbacx.Model.PySinks", "Rbacx.Model.PyAssembly"]
 
 FILE = "src/rbacx/core/engine.py"
 DECISION_FILE = "src/rbacx/core/decision.py"
@@ -32,14 +32,19 @@ METHOD = "Guard._evaluate_core_async"
 START = "if self.metrics is not None"
 LEAN_NAME = "engine_sinks"
 SINKS = {("self.metrics", "inc"): "metrics_inc", ("self.metrics", "observe"): "metrics_observe", ("self.logger_sink", "log"): "logger_sink_log"}
-# the designated ranges of the method body, in order: (label, first statement, last statement | None = one statement | "END" = to the end)
-RANGES = [
-    ("start", "start = _now()", None),
-    ("engine_env", "roles", "if self.strict_types"),
-    ("cache_protocol", "raw = None", "if raw is None"),
-    ("engine_gate", "decision_str =", "d = Decision("),
-    ("engine_sinks", START, "END"),
-]
+# the designated ranges of the method body, in order: (label, first statement, last statement | None = one statement | "END" = to the end);
+# `engine_env` / `engine_gate` are THE ranges the engine plugin translates (their designators are taken from there)
+CACHE_RANGE = ("cache_protocol", "raw = None", "if raw is None")
+START_STMT = ("start", "start = _now()", None)
+TAIL = "engine_sinks"
+
+
+def ranges() -> list:
+    from extractors import src_translation_engine as eng
+    by = {n: (n, a, b) for n, a, b in eng.RANGES}
+    return [START_STMT, by["engine_env"], CACHE_RANGE, by["engine_gate"], (TAIL, START, "END")]
+
+
 CORE = "_evaluate_core_async"
 WRAPPERS = ["evaluate_async", "evaluate_sync", "is_allowed_sync", "is_allowed_async"]
 
@@ -59,12 +64,18 @@ def extract(repo: str) -> dict:
     import pytolean_sinks as ps
     src, cfg = config(repo)
     out = {"decision_fields": cfg.dataclasses["Decision"]}
+    # the two parts fail separately: a sink block outside the translatable subset does not take the assembly facts with it
     try:
         out[LEAN_NAME] = ps.translate_tail(src, METHOD, START, LEAN_NAME, cfg)
     except pa.Unsupported as e:
-        raise pa.Unsupported(f"sink block of {METHOD} ({FILE}): {e}") from e
+        out[LEAN_NAME] = {"failed": f"sink block of {METHOD} ({FILE}): {e}"}
+    fr = out[LEAN_NAME]
+    # what the sink block reads (in order of first read; then what its opaque expressions read): where are these assigned?
+    watch = [] if "failed" in fr else [v for v in fr["inputs"] if not v.startswith("self.")]
+    for o in fr.get("opaque", []):
+        watch += [v for v in o["reads"] if not v.startswith("self.") and v not in watch]
     try:
-        out["assembly"] = ps.assembly(src, CLASS, CORE, RANGES, WRAPPERS, sorted({k[0] for k in SINKS}))
+        out["assembly"] = ps.assembly(src, CLASS, CORE, ranges(), WRAPPERS, sorted({k[0] for k in SINKS}), TAIL, watch)
     except pa.Unsupported as e:
         out["assembly"] = {"failed": str(e)}
     return out
@@ -73,12 +84,16 @@ def extract(repo: str) -> dict:
 def render(f: dict) -> str:
     import pytolean_sinks as ps
     fr = f[LEAN_NAME]
+    head = ("/-! C11/C14: the sink block of `Guard._evaluate_core_async` (core/engine.py) as the source has it now, as a sink-call trace, "
+            "and the assembly of the method and its API wrappers (harness/pytolean_sinks.py) -/\n")
+    if "failed" in fr:
+        return head + "namespace Src\n\n-- sink block not translated: " + fr["failed"].replace("\n", " ") + "\n\n" \
+            + ps.render_assembly(f["assembly"]) + "\nend Src\n"
     args = [f'(sink "{p}")' for _, _, p in fr["sinks"]] + [f'(opq "{o["param"]}")' for o in fr["opaque"]] \
         + [f'(arg "{v}")' for v in fr["inputs"]]
     disp = ("/-- the sink block applied to inputs given BY NAME (for Run/SrcEvalSinks.lean, generated so that it follows the current\n"
             "    signature): `sink p` = the sink parameter `p`, `opq p` = the opaque value `p`, `arg v` = the input variable `v` -/\n"
             "def evalSinks (sink : String → Rbacx.PyS.Sink) (opq : String → PyVal) (arg : String → PyVal) : Rbacx.PyS.Trace :=\n"
             f"  {' '.join([LEAN_NAME] + args)}\n")
-    return ("/-! C11/C14: the sink block of `Guard._evaluate_core_async` (core/engine.py) as the source has it now, as a sink-call trace, "
-            "and the assembly of the method and its API wrappers (harness/pytolean_sinks.py) -/\n"
+    return (head +
             "namespace Src\n\n" + fr["lean"] + "\n" + disp + "\n" + ps.render_assembly(f["assembly"]) + "\nend Src\n")
